@@ -271,4 +271,11 @@ pub fn run(cfg: &Cfg, rep: &mut Report) {
       });
     }
   }
+
+  // thread part: interval(1ms).take(k) ticking on 1-2 worker threads that fire
+  // the virtual timers, optionally with an unsubscribing thread
+  let n = cfg.n(4_000, 200_000);
+  super::thr::systematic_families(cfg, rep, 0xC08A, &[23, 23, 23], &|_, _| {}, &|o, s| super::thr::interval_oracle(o, s));
+  super::thr::campaign(cfg, rep, "thr", n, 0xC08F, &mut |r: &mut Rng| super::thr::random_scen(r, 23), &|o, s| super::thr::interval_oracle(o, s));
+  super::thr::free_campaign(cfg, rep, cfg.n(1_000, 100_000), 0xC08E, &mut |r: &mut Rng| super::thr::random_scen(r, 23), &|o, s| super::thr::interval_oracle(o, s));
 }
